@@ -143,7 +143,7 @@ Shape_ext == [root |-> "M",
 Shape_empty == [root |-> "M",
   blobs |-> {"C", "L0", "L1"},
   mans |-> ("M" :> "image"),
-  kids |-> ("M" :> <<<<"C", "config", "", FALSE>>, <<"L0", "layer", "", FALSE>>, <<"L1", "layer", "", FALSE>>>>),
+  kids |-> ("M" :> <<<<"C", "config", "", FALSE>>, <<"L0", "layer", "", TRUE>>, <<"L1", "layer", "", FALSE>>>>),
   refs |-> {},
   dtags |-> {},
   fbs |-> {},
@@ -187,5 +187,16 @@ Shape_loop == [root |-> "M",
   uniqfb |-> {"C", "L1", "CS", "LS", "S"},
   order |-> <<"C", "L1", "M", "CS", "LS", "S">>]
 
-Shapes == ("img" :> Shape_img) @@ ("dup" :> Shape_dup) @@ ("idx2" :> Shape_idx2) @@ ("nested" :> Shape_nested) @@ ("art" :> Shape_art) @@ ("artidx" :> Shape_artidx) @@ ("bentry" :> Shape_bentry) @@ ("docker" :> Shape_docker) @@ ("schema1" :> Shape_schema1) @@ ("ext" :> Shape_ext) @@ ("empty" :> Shape_empty) @@ ("inline" :> Shape_inline) @@ ("dtag" :> Shape_dtag) @@ ("loop" :> Shape_loop)
+Shape_big == [root |-> "M",
+  blobs |-> {"C", "LB", "L2"},
+  mans |-> ("M" :> "image"),
+  kids |-> ("M" :> <<<<"C", "config", "", FALSE>>, <<"LB", "layer", "", FALSE>>, <<"L2", "layer", "", FALSE>>>>),
+  refs |-> {},
+  dtags |-> {},
+  fbs |-> {},
+  uniq |-> {"C", "LB", "L2", "M"},
+  uniqfb |-> {"C", "LB", "L2", "M"},
+  order |-> <<"C", "LB", "L2", "M">>]
+
+Shapes == ("img" :> Shape_img) @@ ("dup" :> Shape_dup) @@ ("idx2" :> Shape_idx2) @@ ("nested" :> Shape_nested) @@ ("art" :> Shape_art) @@ ("artidx" :> Shape_artidx) @@ ("bentry" :> Shape_bentry) @@ ("docker" :> Shape_docker) @@ ("schema1" :> Shape_schema1) @@ ("ext" :> Shape_ext) @@ ("empty" :> Shape_empty) @@ ("inline" :> Shape_inline) @@ ("dtag" :> Shape_dtag) @@ ("loop" :> Shape_loop) @@ ("big" :> Shape_big)
 =============================================================================
